@@ -59,7 +59,7 @@ func (r result) coq() string {
 	if r.pan {
 		return vh.Pan("(N * N * N)")
 	}
-	return vh.Ok("(" + vh.NU(r.start) + ", " + vh.NU(r.end) + ", " + vh.BytesAsN(r.hash[:]) + ")")
+	return vh.Ok("(" + vh.NU(r.start) + ", " + vh.NU(r.end) + ", " + num32(r.hash[:]) + ")")
 }
 
 func runCommon(node crypto.Hash, number uint64, snaps []Snap, perm []int, alt bool) result {
@@ -118,10 +118,10 @@ func reference(node crypto.Hash, number uint64, snaps []Snap) (result, []string)
 	var tbl []string
 	seed := binary.BigEndian.AppendUint64(append([]byte{}, node[:]...), number)
 	h := crypto.Blake3Hash(seed)
-	tbl = append(tbl, "("+vh.App("HSeed", vh.BytesAsN(node[:]), vh.NU(number))+", "+vh.BytesAsN(h[:])+")")
+	tbl = append(tbl, "("+vh.App("HSeed", num32(node[:]), vh.NU(number))+", "+num32(h[:])+")")
 	for _, k := range ks {
 		n := crypto.Blake3Hash(append(append([]byte{}, h[:]...), k.h[:]...))
-		tbl = append(tbl, "("+vh.App("HLink", vh.BytesAsN(h[:]), vh.BytesAsN(k.h[:]))+", "+vh.BytesAsN(n[:])+")")
+		tbl = append(tbl, "("+vh.App("HLink", num32(h[:]), num32(k.h[:]))+", "+num32(n[:])+")")
 		h = n
 	}
 	r.hash = h
@@ -168,15 +168,15 @@ func run(c *vh.Ctx, cs Case) {
 		for i, p := range cs.Perms[0] {
 			s := cs.Snaps[p]
 			hh := h32(s.Hash)
-			lc[i] = vh.App("mk_snap", vh.BytesAsN(hh[:]), vh.NU(s.Ts), vh.NU(uint64(s.Version)), vh.NU(cs.Number), "(@nil N)")
+			lc[i] = vh.App("mk_snap", num32(hh[:]), vh.NU(s.Ts), vh.NU(uint64(s.Version)), vh.NU(cs.Number), "(@nil N)")
 		}
 		lt := make([]string, len(cs.Snaps))
 		for i, p := range cs.Perms[len(cs.Perms)-1] {
 			s := cs.Snaps[p]
 			hh := h32(s.Hash)
-			lt[i] = vh.App("mk_tsnap", vh.App("mk_snap", vh.BytesAsN(hh[:]), vh.NU(s.Ts), vh.NU(uint64(s.Version)), vh.NU(cs.Number), "(@nil N)"), vh.NU(s.Topo))
+			lt[i] = vh.App("mk_tsnap", vh.App("mk_snap", num32(hh[:]), vh.NU(s.Ts), vh.NU(uint64(s.Version)), vh.NU(cs.Number), "(@nil N)"), vh.NU(s.Topo))
 		}
-		term = vh.App("CHash", vh.BytesAsN(node[:]), vh.NU(cs.Number), vh.List(lc, "snap"), vh.List(lt, "tsnap"),
+		term = vh.App("CHash", num32(node[:]), vh.NU(cs.Number), vh.List(lc, "snap"), vh.List(lt, "tsnap"),
 			vh.List(tbl, "(hin * N)"), first.coq(), firstS.coq())
 	}
 	key := fmt.Sprintf("%s|%d|%v", cs.Node, cs.Number, cs.Snaps)
